@@ -45,7 +45,10 @@ type cursor struct {
 	prevTo func(kind, param int) bool
 	match  func(kind, param, pos int) bool // the same predicate evaluated on the model sequence
 	read   func(pos int) string            // reads Index/Key/Value at pos; "" if they are those of pos
+	others func()                          // other read-only observers of the same container (Values, Keys, String)
 }
+
+func withReader(cu *cursor, f func()) *cursor { cu.others = f; return cu }
 
 func posClass(p, n int) string {
 	switch {
@@ -326,15 +329,22 @@ func buildCursor(c *core.Ctx, typ string, n int, exact bool) (mk func() *cursor)
 	case "ArrayList":
 		l := arraylist.New[int]()
 		churn(func(v int) { l.Insert(r.Range(0, l.Size()), v) }, func() { l.Remove(r.Range(0, l.Size())) }, l.Size)
-		return func() *cursor { return idxCursor[int](c, typ, l.Iterator(), l.Values()) }
+		return func() *cursor {
+			return withReader(idxCursor[int](c, typ, l.Iterator(), l.Values()), func() { l.Values(); _ = l.String() })
+		}
 	case "SinglyLinkedList":
 		l := singlylinkedlist.New[int]()
 		churn(func(v int) { l.Insert(r.Range(0, l.Size()), v) }, func() { l.Remove(r.Range(0, l.Size())) }, l.Size)
-		return func() *cursor { return idxCursor[int](c, typ, l.Iterator(), l.Values()) }
+		return func() *cursor {
+			return withReader(idxCursor[int](c, typ, l.Iterator(), l.Values()), func() { l.Values(); _ = l.String() })
+		}
 	case "DoublyLinkedList":
 		l := doublylinkedlist.New[int]()
 		churn(func(v int) { l.Insert(r.Range(0, l.Size()), v) }, func() { l.Remove(r.Range(0, l.Size())) }, l.Size)
-		return func() *cursor { it := l.Iterator(); return idxCursor[int](c, typ, &it, l.Values()) }
+		return func() *cursor {
+			it := l.Iterator()
+			return withReader(idxCursor[int](c, typ, &it, l.Values()), func() { l.Values(); _ = l.String() })
+		}
 	case "TreeSet":
 		cm := intCmps[[]int{0, 1, 3}[r.Intn(3)]]
 		s := treeset.NewWith[int](cm.F)
@@ -343,7 +353,10 @@ func buildCursor(c *core.Ctx, typ string, n int, exact bool) (mk func() *cursor)
 				s.Remove(vs[r.Intn(len(vs))])
 			}
 		}, s.Size)
-		return func() *cursor { it := s.Iterator(); return idxCursor[int](c, typ, &it, s.Values()) }
+		return func() *cursor {
+			it := s.Iterator()
+			return withReader(idxCursor[int](c, typ, &it, s.Values()), func() { s.Values(); _ = s.String() })
+		}
 	case "LinkedHashSet":
 		s := linkedhashset.New[int]()
 		churn(func(v int) { s.Add(nextKey()) }, func() {
@@ -351,23 +364,34 @@ func buildCursor(c *core.Ctx, typ string, n int, exact bool) (mk func() *cursor)
 				s.Remove(vs[r.Intn(len(vs))])
 			}
 		}, s.Size)
-		return func() *cursor { it := s.Iterator(); return idxCursor[int](c, typ, &it, s.Values()) }
+		return func() *cursor {
+			it := s.Iterator()
+			return withReader(idxCursor[int](c, typ, &it, s.Values()), func() { s.Values(); _ = s.String() })
+		}
 	case "ArrayStack":
 		s := arraystack.New[int]()
 		churn(func(v int) { s.Push(v) }, func() { s.Pop() }, s.Size)
-		return func() *cursor { return idxCursor[int](c, typ, s.Iterator(), s.Values()) }
+		return func() *cursor {
+			return withReader(idxCursor[int](c, typ, s.Iterator(), s.Values()), func() { s.Values(); _ = s.String() })
+		}
 	case "LinkedListStack":
 		s := linkedliststack.New[int]()
 		churn(func(v int) { s.Push(v) }, func() { s.Pop() }, s.Size)
-		return func() *cursor { return idxCursor[int](c, typ, s.Iterator(), s.Values()) }
+		return func() *cursor {
+			return withReader(idxCursor[int](c, typ, s.Iterator(), s.Values()), func() { s.Values(); _ = s.String() })
+		}
 	case "ArrayQueue":
 		q := arrayqueue.New[int]()
 		churn(func(v int) { q.Enqueue(v) }, func() { q.Dequeue() }, q.Size)
-		return func() *cursor { return idxCursor[int](c, typ, q.Iterator(), q.Values()) }
+		return func() *cursor {
+			return withReader(idxCursor[int](c, typ, q.Iterator(), q.Values()), func() { q.Values(); _ = q.String() })
+		}
 	case "LinkedListQueue":
 		q := linkedlistqueue.New[int]()
 		churn(func(v int) { q.Enqueue(v) }, func() { q.Dequeue() }, q.Size)
-		return func() *cursor { return idxCursor[int](c, typ, q.Iterator(), q.Values()) }
+		return func() *cursor {
+			return withReader(idxCursor[int](c, typ, q.Iterator(), q.Values()), func() { q.Values(); _ = q.String() })
+		}
 	case "CircularBuffer":
 		cp := n + r.Intn(3)
 		if cp < 1 {
@@ -387,15 +411,21 @@ func buildCursor(c *core.Ctx, typ string, n int, exact bool) (mk func() *cursor)
 		for q.Size() < n {
 			q.Enqueue(d.Val(r))
 		}
-		return func() *cursor { return idxCursor[int](c, typ, q.Iterator(), q.Values()) }
+		return func() *cursor {
+			return withReader(idxCursor[int](c, typ, q.Iterator(), q.Values()), func() { q.Values(); _ = q.String() })
+		}
 	case "PriorityQueue":
 		q := priorityqueue.NewWith[int](intCmps[r.Intn(4)].F)
 		churn(func(v int) { q.Enqueue(v) }, func() { q.Dequeue() }, q.Size)
-		return func() *cursor { return idxCursor[int](c, typ, q.Iterator(), q.Values()) }
+		return func() *cursor {
+			return withReader(idxCursor[int](c, typ, q.Iterator(), q.Values()), func() { q.Values(); _ = q.String() })
+		}
 	case "BinaryHeap":
 		h := binaryheap.NewWith[int](intCmps[r.Intn(4)].F)
 		churn(func(v int) { h.Push(v) }, func() { h.Pop() }, h.Size)
-		return func() *cursor { return idxCursor[int](c, typ, h.Iterator(), h.Values()) }
+		return func() *cursor {
+			return withReader(idxCursor[int](c, typ, h.Iterator(), h.Values()), func() { h.Values(); _ = h.String() })
+		}
 	}
 	// key iterators
 	val := 0
@@ -422,7 +452,10 @@ func buildCursor(c *core.Ctx, typ string, n int, exact bool) (mk func() *cursor)
 				m.Remove(k)
 			}
 		}, m.Size)
-		return func() *cursor { ks := m.Keys(); return keyCursor[int, int](c, typ, m.Iterator(), ks, vals(ks, m.Get)) }
+		return func() *cursor {
+			ks := m.Keys()
+			return withReader(keyCursor[int, int](c, typ, m.Iterator(), ks, vals(ks, m.Get)), func() { m.Keys(); m.Values(); _ = m.String() })
+		}
 	case "LinkedHashMap":
 		m := linkedhashmap.New[int, int]()
 		churn(func(int) { m.Put(nextKey(), nv()) }, func() {
@@ -430,7 +463,10 @@ func buildCursor(c *core.Ctx, typ string, n int, exact bool) (mk func() *cursor)
 				m.Remove(k)
 			}
 		}, m.Size)
-		return func() *cursor { ks := m.Keys(); return keyCursor[int, int](c, typ, m.Iterator(), ks, vals(ks, m.Get)) }
+		return func() *cursor {
+			ks := m.Keys()
+			return withReader(keyCursor[int, int](c, typ, m.Iterator(), ks, vals(ks, m.Get)), func() { m.Keys(); m.Values(); _ = m.String() })
+		}
 	case "TreeBidiMap":
 		m := treebidimap.NewWith[int, int](cm.F, intCmps[[]int{0, 1, 3}[r.Intn(3)]].F)
 		churn(func(int) { m.Put(nextKey(), nv()) }, func() {
@@ -439,7 +475,10 @@ func buildCursor(c *core.Ctx, typ string, n int, exact bool) (mk func() *cursor)
 			}
 		}, m.Size)
 		// Values() is value-sorted, hence Get for the value at each key
-		return func() *cursor { ks := m.Keys(); return keyCursor[int, int](c, typ, m.Iterator(), ks, vals(ks, m.Get)) }
+		return func() *cursor {
+			ks := m.Keys()
+			return withReader(keyCursor[int, int](c, typ, m.Iterator(), ks, vals(ks, m.Get)), func() { m.Keys(); m.Values(); _ = m.String() })
+		}
 	case "RedBlackTree":
 		m := redblacktree.NewWith[int, int](cm.F)
 		churn(func(int) { m.Put(nextKey(), nv()) }, func() {
@@ -447,7 +486,10 @@ func buildCursor(c *core.Ctx, typ string, n int, exact bool) (mk func() *cursor)
 				m.Remove(k)
 			}
 		}, m.Size)
-		return func() *cursor { ks := m.Keys(); return keyCursor[int, int](c, typ, m.Iterator(), ks, vals(ks, m.Get)) }
+		return func() *cursor {
+			ks := m.Keys()
+			return withReader(keyCursor[int, int](c, typ, m.Iterator(), ks, vals(ks, m.Get)), func() { m.Keys(); m.Values(); _ = m.String() })
+		}
 	case "AVLTree":
 		m := avltree.NewWith[int, int](cm.F)
 		churn(func(int) { m.Put(nextKey(), nv()) }, func() {
@@ -455,7 +497,10 @@ func buildCursor(c *core.Ctx, typ string, n int, exact bool) (mk func() *cursor)
 				m.Remove(k)
 			}
 		}, m.Size)
-		return func() *cursor { ks := m.Keys(); return keyCursor[int, int](c, typ, m.Iterator(), ks, vals(ks, m.Get)) }
+		return func() *cursor {
+			ks := m.Keys()
+			return withReader(keyCursor[int, int](c, typ, m.Iterator(), ks, vals(ks, m.Get)), func() { m.Keys(); m.Values(); _ = m.String() })
+		}
 	case "BTree":
 		m := btree.NewWith[int, int](btreeOrders[r.Intn(6)], cm.F)
 		churn(func(int) { m.Put(nextKey(), nv()) }, func() {
@@ -463,7 +508,10 @@ func buildCursor(c *core.Ctx, typ string, n int, exact bool) (mk func() *cursor)
 				m.Remove(k)
 			}
 		}, m.Size)
-		return func() *cursor { ks := m.Keys(); return keyCursor[int, int](c, typ, m.Iterator(), ks, vals(ks, m.Get)) }
+		return func() *cursor {
+			ks := m.Keys()
+			return withReader(keyCursor[int, int](c, typ, m.Iterator(), ks, vals(ks, m.Get)), func() { m.Keys(); m.Values(); _ = m.String() })
+		}
 	}
 	panic("unknown iterator type " + typ)
 }
@@ -515,6 +563,10 @@ func runCursorRandom(c *core.Ctx, typ string) {
 	mk := buildCursor(c, typ, n, false)
 	for round := 0; round < 3; round++ {
 		cu := mk()
+		// a second cursor over the same, unmodified container and the
+		// container's other observers run interleaved with the first: readers
+		// do not count as modification, so each cursor must be unaffected
+		other := mk()
 		steps := r.Range(40, 200)
 		if big {
 			steps = 60
@@ -523,6 +575,18 @@ func runCursorRandom(c *core.Ctx, typ string) {
 			}
 		}
 		for s := 0; s < steps; s++ {
+			if round > 0 {
+				switch r.Intn(6) {
+				case 0:
+					other.randomStep()
+					c.Count("obs:interleaved-second-cursor-steps", 1)
+				case 1:
+					if cu.others != nil {
+						c.Begin(cu.name, "Values/Keys/String-during-iteration")
+						cu.others()
+					}
+				}
+			}
 			cu.randomStep()
 			// direction reversal at the sentinels
 			if cu.rev && (cu.p == -1 || cu.p == cu.n) && r.Chance(1, 2) {
